@@ -35,8 +35,12 @@ PROPERTY = "C20"
 LEAN_MODULES = ["TapkeeVerif.Props.C20"]
 LEAN_EXES = ["model_c20"]
 REQUIRED_THEOREMS = [
-    "TapkeeVerif.Cli.wiring_correct_refuted",
-    "TapkeeVerif.Cli.wiring_correct_partial",
+    "TapkeeVerif.Cli.wiring_correct",
+    "TapkeeVerif.Cli.every_param_option_wired",
+    "TapkeeVerif.Cli.defaults_match_spec",
+    "TapkeeVerif.Cli.defaults_faithful",
+    "TapkeeVerif.Cli.one_sample_per_line",
+    "TapkeeVerif.Cli.data_path_is_spec",
     "TapkeeVerif.Cli.every_library_keyword_reachable_or_listed",
     "TapkeeVerif.Cli.name_maps_correct",
     "TapkeeVerif.Cli.guards_present",
@@ -47,6 +51,11 @@ REQUIRED_THEOREMS = [
     "TapkeeVerif.Cli.projection_files",
     "TapkeeVerif.Cli.precompute_same_params",
 ]
+
+# vlib.HARNESS_FLAGS (ASan + UBSan + _GLIBCXX_ASSERTIONS + TAPKEE_VERIF …) with -O0 -g1 instead of -O1 -g: the two translation
+# units instantiate every method of the library; -O1 -g costs ~4 min cold, -O0 -g1 ~1 min, and the runs are tiny
+# (-g1 keeps the file:function frames that vlib.sanitizer_summary reads)
+BUILD_FLAGS = ["-O0" if f == "-O1" else "-g1" if f == "-g" else f for f in vlib.HARNESS_FLAGS]
 
 GEN_PATH = os.path.join(vlib.LEAN_DIR, "TapkeeVerif", "Gen", "Cli.lean")
 PROPS_PATH = os.path.join(vlib.LEAN_DIR, "TapkeeVerif", "Props", "C20.lean")
@@ -86,6 +95,9 @@ def read_spec():
             spec["options"][m.group(1)] = (mm.group(1), mm.group(2))
     for m in re.finditer(r'^\s*\("([A-Z_]+)", "([^"]+)", "(\w+)"\),?\s*$', src, re.M):
         spec["names"].append((m.group(1), m.group(2), m.group(3)))
+    spec["defaults"] = {}
+    for m in re.finditer(r'^\s*\("([a-z-]+)", "([^"]*)"\),?\s*$', src, re.M):
+        spec["defaults"][m.group(1)] = m.group(2)
     m = re.search(r"def specUnreachable : List String := \[([^\]]*)\]", src)
     spec["unreachable"] = re.findall(r'"([^"]+)"', m.group(1)) if m else []
     if len(spec["options"]) < 20 or len(spec["names"]) < 30:
@@ -470,20 +482,21 @@ def gen_cases(env, r, quick):
     # 7. file formats through passthru: delimiters, transposition flags, blank lines, junk, ragged, empty, missing newline
     delims = [",", ";", "\t", " ", "|", ":"]
     two = [[Fraction(1), Fraction(2)], [Fraction(3), Fraction(4)]]
-    cases.append(Case("file:no-final-newline:tiny", base_opts("passthru"), "1,2\n3,4", intended=two,
+    td1 = [("target-dimension", "1", "alias")]
+    cases.append(Case("file:no-final-newline:tiny", base_opts("passthru", td1), "1,2\n3,4", intended=two,
                       tags={"file", "no-final-newline"}))
-    cases.append(Case("file:plain:tiny", base_opts("passthru"), "1,2\n3,4\n", intended=two, tags={"file", "plain"}))
+    cases.append(Case("file:plain:tiny", base_opts("passthru", td1), "1,2\n3,4\n", intended=two, tags={"file", "plain"}))
     nfiles = 40 if quick else 400
     for n in range(nfiles):
         dl = delims[n % len(delims)]
-        N, D = r.range(1, 6), r.range(1, 5)
+        N, D = r.range(2, 6), r.range(1, 5)      # the library demands target dimension < N: --td 1 and N >= 2
         rows = rand_matrix(r, N, D)
         tin, tout = bool(n // len(delims) % 2), bool(n // (2 * len(delims)) % 2)
         kind = ["plain", "blank", "crlf", "trailing-delim", "no-final-newline", "plain"][r.below(6)]
         txt = file_of(r, rows, dl, transposed=tin, trailing_newline=(kind != "no-final-newline"),
                       blanks=(r.range(1, 3) if kind == "blank" else 0), crlf=(kind == "crlf"),
                       trailing_delim=(kind == "trailing-delim"))
-        ex = [("delimiter", dl, ["short", "eq", "long"][n % 3])]
+        ex = [("delimiter", dl, ["short", "eq", "long"][n % 3]), ("target-dimension", "1", "alias")]
         if tin:
             ex.append(("transpose-input", None, "long"))
         if tout:
@@ -508,12 +521,12 @@ def gen_cases(env, r, quick):
     }
     for name, txt in malformed.items():
         for tin in (False, True):
-            ex = [("transpose-input", None, "long")] if tin else []
+            ex = td1 + ([("transpose-input", None, "long")] if tin else [])
             cases.append(Case("malformed:%s:tin%d" % (name, tin), base_opts("passthru", ex), txt, tags={"file", "malformed", name}))
-    cases.append(Case("missing-input-file", base_opts("passthru"), None, tags={"file", "malformed"}))
-    cases.append(Case("multichar-delimiter", base_opts("passthru", [("delimiter", ";,", "long")]), "1;2\n3;4\n",
+    cases.append(Case("missing-input-file", base_opts("passthru", td1), None, tags={"file", "malformed"}))
+    cases.append(Case("multichar-delimiter", base_opts("passthru", td1 + [("delimiter", ";,", "long")]), "1;2\n3;4\n",
                       intended=[[Fraction(1), Fraction(2)], [Fraction(3), Fraction(4)]], tags={"file"}))
-    cases.append(Case("std-streams", [("method", "passthru", "long")], "1,2\n3,4\n", io="std",
+    cases.append(Case("std-streams", [("method", "passthru", "long")] + td1, "1,2\n3,4\n", io="std",
                       intended=[[Fraction(1), Fraction(2)], [Fraction(3), Fraction(4)]], tags={"file"}))
     # transposition with a real method and every delimiter for output
     for dl in delims[:4]:
@@ -750,7 +763,8 @@ def judge_one(ctx, env, c, plan, lr, exp, act):
         want_shape = (d, [N]) if c.count("transpose-output") else (N, [d])
         ctx.stat("oracle:shape")
         if shape != want_shape:
-            sig = "read:unterminated-last-line" if (c.file and not c.file.endswith("\n")) else "shape:%s" % ident
+            sig = "read:unterminated-last-line" if (c.file and not c.file.endswith("\n")) else \
+                "shape:%s" % ("passthru" if ident == "PassThru" else "embedding")
             ctx.fail(sig, "output has %d lines x %s fields, the property demands %d x %s (N = %d samples%s)"
                      % (shape[0], shape[1], want_shape[0], want_shape[1], N,
                         "; the input file has no newline after its last line" if sig.startswith("read:") else ""),
@@ -793,18 +807,23 @@ def judge_one(ctx, env, c, plan, lr, exp, act):
                          % (c.varied[0], "" if c.varied[1] in (0, 1, 2) else "=" + str(c.varied[1]), disp, got, wanted), case=D,
                          detail={"echo": act["echo"]})
                 return
-    # documented defaults: an option that is not given has the default written in with_default(…)
+    # documented defaults: an option that is not given has the default the spec documents
     if act["echo"] and "method" in c.tags:
-        for row in env.T["options"] if env.T else []:
-            role = env.spec["options"].get(row["canonical"])
-            if row["ty"] == "dbl" and role and role[0] == "param" and not c.opt(row["canonical"]):
-                got = act["echo"].get(env.kwdisplay.get(role[1]))
-                ctx.stat("oracle:default")
-                if got is None or dec(got) is None or not close6(dec(got), Fraction(row["default"])):
-                    ctx.fail("default:%s" % row["canonical"],
-                             "--%s is declared with_default(%s) but without the option the library receives `%s = [%s]`"
-                             % (row["canonical"], row["default"], env.kwdisplay.get(role[1]), got), case=D,
-                             detail={"echo": act["echo"]})
+        for optn, dflt in env.spec["defaults"].items():
+            role = env.spec["options"].get(optn)
+            if not role or role[0] != "param" or c.opt(optn):
+                continue
+            disp = env.kwdisplay.get(role[1])
+            got = act["echo"].get(disp)
+            ctx.stat("oracle:default")
+            if role[2] == "named":
+                cident = dict((k, v) for m, k, v in env.spec["names"] if m == role[3]).get(dflt)
+                ok = got == env.constdisplay.get(cident)
+            else:
+                ok = got is not None and dec(got) is not None and close6(dec(got), Fraction(dflt))
+            if not ok:
+                ctx.fail("default:%s" % optn, "the documented default of --%s is %s, but without the option the library receives `%s = [%s]`"
+                         % (optn, dflt, disp, got), case=D, detail={"echo": act["echo"]})
     # projection files: written <=> both options given and the method returns a projection
     if "projection" in c.tags and act["rc"] == 0 and lr and lr.startswith("ok|"):
         has_proj = not lr.endswith("|-")
@@ -936,8 +955,8 @@ def number_contract(ctx, env):
 # ----------------------------------------------------------------------------------------------- entry points
 def build(ctx, env):
     with concurrent.futures.ThreadPoolExecutor(max_workers=2) as ex:
-        f1 = ex.submit(ctx.build_harness, os.path.join(vlib.REPO, "src", "cli", "main.cpp"), "c20_cli")
-        f2 = ex.submit(ctx.build_harness, "c20_lib.cpp")
+        f1 = ex.submit(ctx.build_harness, os.path.join(vlib.REPO, "src", "cli", "main.cpp"), "c20_cli", (), BUILD_FLAGS)
+        f2 = ex.submit(ctx.build_harness, "c20_lib.cpp", None, (), BUILD_FLAGS)
         env.cli, log1 = f1.result()
         env.lib, log2 = f2.result()
     if not env.cli:
@@ -973,7 +992,9 @@ def correspond(ctx, use_model=True):
         if getattr(ctx, "replay", None) and isinstance(ctx.replay.get("case"), dict) and "argv" in ctx.replay["case"]:
             cases = [case_from_replay(env, ctx.replay["case"])]
         else:
-            cases = gen_cases(env, ctx.rng, quick)
+            cases = corpus_cases(env) + gen_cases(env, ctx.rng, quick)
+            for i, c in enumerate(cases):
+                c.idx = i
         ctx.log("%d cases (%s)" % (len(cases), ctx.tier))
         judge(ctx, env, cases, use_model)
         if env.lib and use_model and not getattr(ctx, "replay", None):
@@ -998,6 +1019,23 @@ def correspond(ctx, use_model=True):
         "--max-iters 1000 ManifoldSculpting did not finish within 20 minutes on 20 points under ASan (not a C20 matter)",
     ]
     ctx.extra["c20"] = {"cli_flags": "vlib.HARNESS_FLAGS", "defines": env.T["defines"]}
+
+
+def corpus_cases(env):
+    """minimised past failures (corpus/C20/*.case, one JSON case per line), run first"""
+    out = []
+    cdir = os.path.join(vlib.ROOT, "corpus", "C20")
+    if os.path.isdir(cdir):
+        for f in sorted(os.listdir(cdir)):
+            if not f.endswith(".case"):
+                continue
+            for line in open(os.path.join(cdir, f)):
+                line = line.strip()
+                if line.startswith("{"):
+                    c = case_from_replay(env, json.loads(line))
+                    c.tags.add("corpus")
+                    out.append(c)
+    return out
 
 
 def impl_only(ctx):
